@@ -552,7 +552,11 @@ func (s *SendStream) CancelWrite(errorCode StreamErrorCode) {
 
 func (s *SendStream) enableResetStreamAt() {
 	s.mutex.Lock()
-	s.supportsResetStreamAt = true
+	// If the stream was already reset, the RESET_STREAM frame (without a reliable size) has been queued,
+	// and the stream's data was dropped. It's too late to switch to RESET_STREAM_AT semantics.
+	if s.resetErr == nil {
+		s.supportsResetStreamAt = true
+	}
 	s.mutex.Unlock()
 }
 
